@@ -335,6 +335,22 @@ func checkC13(c *CaseC13, fl *Fails) {
 }
 
 func sweepC13(tier string, emit func(*CaseC13)) {
+	// "native" tiles: horizontal zoom = vertical zoom = requested output zoom, for every zoom 20..35, with the default
+	// altitude reference (exponent 25, offset 0) and its neighbours - the shape a direct-emission shortcut would accept
+	for z := int64(20); z <= 35; z++ {
+		for _, e := range []int64{25, 24, z} {
+			for _, off := range []int64{0, 1, -1} {
+				if tier == "quick" && (e == 24 || off == -1) && z%3 != 0 {
+					continue
+				}
+				n := int64(1) << uint(z)
+				c := &CaseC13{E: e, Off: off, OutV: z, Tiles: []Tile{{H: z, X: n / 3, Y: n / 5, V: z, Z: 3}, {H: z, X: n / 3, Y: n / 5, V: z, Z: 4}, {H: z, X: n/3 + 1, Y: n / 5, V: z, Z: 0}}}
+				if c13Bounded(c) {
+					emit(c)
+				}
+			}
+		}
+	}
 	// large requests: a g x g block of footprints, several storeys, listed storey by storey (so every footprint
 	// reappears after all the others) - more distinct footprints than a pre-sized table holds
 	for _, g := range []int64{33, 40, 70} {
